@@ -412,6 +412,9 @@ def enumerate_faults(token, plan, case):
         if kind in ("tag", "iv"):
             for n in range(len(data)):
                 yield {"kind": "truncate", "addr": list(addr), "seg": kind, "n": n}
+            if kind == "iv":
+                for n in (1, 4, 8):
+                    yield {"kind": "truncate-front", "addr": list(addr), "seg": kind, "n": n}
             for tail in ([0], [0, 0, 0, 0], list(data)):
                 yield {"kind": "extend", "addr": list(addr), "seg": kind, "tail": tail}
         elif kind in ("ciphertext", "aad", "encrypted_key"):
@@ -467,7 +470,8 @@ def mint(case):
     if plan["zip"]:
         pass
     if case["minter"] == "ref":
-        token, _ = jp.ref_encrypt(plan, case["seed"], tuple(case["spelling"]), additions_in_protected=case["in_protected"])
+        token, _ = jp.ref_encrypt(plan, case["seed"], tuple(case["spelling"]), additions_in_protected=case["in_protected"],
+                                  iv_zero_prefix=4 if case["seed"] % 3 == 0 else 0)
         if len(plan["recipients"]) == 1 and plan["recipients"][0]["alg"].startswith("RSA") and case["seed"] % 2 == 0:
             # one RSA ciphertext in 256 starts with a zero octet: look for such a token (the randomness of the reference derives from the seed)
             for i in range(1, 1500):
